@@ -337,12 +337,27 @@ func apiCase(r *rng.R, dir string) string {
 		}
 		pend("luaapi %d %s %x %d %d | %s | %s", model, spec, loadAt, iters, trp, strings.Join(w1, " "), strings.Join(w2, " "))
 	}
+	used := r.Chance(30)
+	if used {
+		count("luaapi.usedcpu")
+	}
 	var err error
 	var c *cpu.CPU6502
 	crashed := protect(func() {
 		c, err = cfg.NewCpu()
 		if err != nil {
 			return
+		}
+		if used {
+			// a CPU that ran an earlier program and was Reset (what the snapshot provider of -prexec hands to a case):
+			// this test's get_cycles must not include what ran before
+			c.Mem.Store(0x0400, 0xE8)
+			c.Mem.Store(0x0401, 0xE8)
+			c.Mem.Store(0x0402, 0x00)
+			c.RunExt(0x0400, true)
+			c.Mem.Store(0x0400, 0)
+			c.Mem.Store(0x0401, 0)
+			c.Reset()
 		}
 		tc := &verifier.TestCase{Name: "api", TestDriverSource: "api.a", TestScript: "api.lua"}
 		var ph *memory.PlaceholderWrapper
